@@ -71,6 +71,11 @@ struct Case {
     sim_seed: u64,
     #[serde(default)]
     auto_ae: bool,
+    /// exactly-once network: no delta is handed to a replica twice (duplicate Deliver steps are skipped and the
+    /// forced quiescence hands over only what a replica has never received, in one round). Re-delivery can repair
+    /// what an incomplete delta left out, so convergence must also be shown without it.
+    #[serde(default)]
+    once: bool,
 }
 
 fn kname(k: u8) -> String {
@@ -612,6 +617,10 @@ impl<'a> Run<'a> {
         if from == to || to >= self.nodes.len() {
             return true;
         }
+        if self.case.once && self.seen.contains(&(op, to)) {
+            rep.count("duplicate_deliveries_suppressed(exactly-once)");
+            return true;
+        }
         for d in ds {
             let key: u8 = d.key[1..].parse().unwrap_or(0);
             let prior = self.tr.prior(to, key);
@@ -730,7 +739,10 @@ async fn run_nodes(case: &Case, rep: &mut Report) -> Vec<Finding> {
             }
         }
     }
-    for round in 0..2 {
+    if run.case.once {
+        rep.count("runs_exactly_once_network");
+    }
+    for round in 0..if run.case.once { 1 } else { 2 } {
         let order: Vec<(usize, usize)> = if round == 0 { fin.clone() } else { fin.iter().rev().copied().collect() };
         for (op, to) in order {
             if !run.deliver(op, to, rep, true).await {
@@ -1061,7 +1073,7 @@ fn matrix_cases() -> Vec<(&'static str, Case)> {
                     prefix(&mut steps, &pr, 2);
                     steps.push(Step::Op { id: pr.len(), at, key: 0, cmd: c.clone() });
                     steps.push(Step::Deliver { op: pr.len(), to: 1 - at });
-                    out.push(("E1", Case { subject: subject.into(), causal: false, rids: vec![1, 2], steps, fin: vec![], sim_seed: 0, auto_ae: false }));
+                    out.push(("E1", Case { subject: subject.into(), causal: false, rids: vec![1, 2], steps, fin: vec![], sim_seed: 0, auto_ae: false, once: false }));
                 }
             }
         }
@@ -1076,7 +1088,7 @@ fn matrix_cases() -> Vec<(&'static str, Case)> {
                 for (op, to) in [(p, 2), (p + 1, 2), (p + 1, 3), (p, 3), (p, 1), (p + 1, 0)] {
                     steps.push(Step::Deliver { op, to });
                 }
-                out.push(("E2", Case { subject: "actor".into(), causal: false, rids: vec![1, 2, 3, 4], steps, fin: vec![], sim_seed: 0, auto_ae: false }));
+                out.push(("E2", Case { subject: "actor".into(), causal: false, rids: vec![1, 2, 3, 4], steps, fin: vec![], sim_seed: 0, auto_ae: false, once: false }));
             }
         }
     }
@@ -1092,7 +1104,7 @@ fn matrix_cases() -> Vec<(&'static str, Case)> {
                     steps.push(Step::Op { id: i, at: 0, key: 0, cmd: c.clone() });
                     steps.push(Step::Deliver { op: i, to: 1 });
                 }
-                out.push(("E3", Case { subject: "actor".into(), causal: false, rids: vec![2, 1], steps, fin: vec![], sim_seed: 0, auto_ae: false }));
+                out.push(("E3", Case { subject: "actor".into(), causal: false, rids: vec![2, 1], steps, fin: vec![], sim_seed: 0, auto_ae: false, once: false }));
             }
         }
     }
@@ -1104,7 +1116,7 @@ fn matrix_cases() -> Vec<(&'static str, Case)> {
             steps.push(Step::Op { id: j, at: 0, key: 0, cmd: tiny[i / tiny.len().pow(j as u32) % tiny.len()].clone() });
             steps.push(Step::Deliver { op: j, to: 1 });
         }
-        out.push(("E4", Case { subject: "actor".into(), causal: false, rids: vec![2, 1], steps, fin: vec![], sim_seed: 0, auto_ae: false }));
+        out.push(("E4", Case { subject: "actor".into(), causal: false, rids: vec![2, 1], steps, fin: vec![], sim_seed: 0, auto_ae: false, once: false }));
     }
     // ES: the simulator's SET/DEL alphabet on every prior, at the node that wrote the prior and at a peer
     let nx = |v: &str| set_with(v, |_, _, nx, _, _, _| *nx = true);
@@ -1116,7 +1128,7 @@ fn matrix_cases() -> Vec<(&'static str, Case)> {
                 let mut steps: Vec<Step> = vec![Step::Loss(if lossy { 1000 } else { 0 })];
                 steps.extend(pr.iter().map(|c| Step::Op { id: 0, at: 0, key: 0, cmd: c.clone() }));
                 steps.extend([Step::Gossip, Step::Tick(20), Step::Gossip, Step::Loss(0), Step::Op { id: 1, at, key: 0, cmd: c.clone() }, Step::Gossip, Step::Tick(20), Step::Gossip]);
-                out.push(("ES", Case { subject: "sim".into(), causal: false, rids: vec![1, 2, 3], steps, fin: vec![], sim_seed: 7, auto_ae: true }));
+                out.push(("ES", Case { subject: "sim".into(), causal: false, rids: vec![1, 2, 3], steps, fin: vec![], sim_seed: 7, auto_ae: true, once: false }));
             }
         }
     }
@@ -1205,7 +1217,7 @@ fn gen_random(rng: &mut Rng, rep: &mut Report) -> Case {
     }
     ev.sort_by_key(|e| (e.0, e.1));
     fin.shuffle(rng);
-    Case { subject: if rng.gen_bool(0.3) { "state".into() } else { "actor".into() }, causal: rng.gen_bool(0.25), rids: pool[..n].to_vec(), steps: ev.into_iter().map(|e| e.2).collect(), fin, sim_seed: 0, auto_ae: false }
+    Case { subject: if rng.gen_bool(0.3) { "state".into() } else { "actor".into() }, causal: rng.gen_bool(0.25), rids: pool[..n].to_vec(), steps: ev.into_iter().map(|e| e.2).collect(), fin, sim_seed: 0, auto_ae: false, once: rng.gen_bool(0.25) }
 }
 
 /// One replica is the only hash writer of the key and never learns of the other replicas' whole-key writes (DEL,
@@ -1261,7 +1273,7 @@ fn gen_single_hash_writer(rng: &mut Rng) -> Case {
     }
     ev.sort_by_key(|e| (e.0, e.1));
     fin.shuffle(rng);
-    Case { subject: if rng.gen_bool(0.3) { "state".into() } else { "actor".into() }, causal: false, rids: pool[..n].to_vec(), steps: ev.into_iter().map(|e| e.2).collect(), fin, sim_seed: 0, auto_ae: false }
+    Case { subject: if rng.gen_bool(0.3) { "state".into() } else { "actor".into() }, causal: false, rids: pool[..n].to_vec(), steps: ev.into_iter().map(|e| e.2).collect(), fin, sim_seed: 0, auto_ae: false, once: rng.gen_bool(0.6) }
 }
 
 /// A history for MultiNodeSimulation: SET/DEL mixes with gossip rounds, loss, partitions and anti-entropy.
@@ -1291,7 +1303,7 @@ fn gen_sim(rng: &mut Rng) -> Case {
             _ => Step::AntiEntropy,
         });
     }
-    Case { subject: "sim".into(), causal: false, rids: (1..=n as u64).collect(), steps, fin: vec![], sim_seed: rng.gen_range(0..1000), auto_ae: rng.gen_bool(0.5) }
+    Case { subject: "sim".into(), causal: false, rids: (1..=n as u64).collect(), steps, fin: vec![], sim_seed: rng.gen_range(0..1000), auto_ae: rng.gen_bool(0.5), once: false }
 }
 
 // ---------------------------------------------------------------- the leg
